@@ -59,7 +59,11 @@ class DtHelpers:
         return NotImplemented
 
 
+EXECUTED = set()
+
+
 def machinery(ctx):
+    EXECUTED.clear()
     md = ctx.mod('_dates')
     names = ('ym', 'month', '_ymd', 'num2dt', 'dt', 'ymd', 'tz_replace', 'as_tz')
     inline = {n: (md, md.func(n)) for n in names}
@@ -89,10 +93,11 @@ def run(ctx, mach, fname, args, pre, name, kwargs=None, excluded=None):
     base = len(st.pc)
     outs = ex.run_function(st, fname, args, kwargs or {})
     ctx.absorb(ex)
-    ctx.record_function(md, fname, md.func(fname), ex.stmts_executed, excluded=excluded)
+    EXECUTED.update(ex.stmts_executed)       # statements reached by any of the runs so far
+    ctx.record_function(md, fname, md.func(fname), EXECUTED, excluded=excluded)
     for f in inline:
         if f != fname and any(id(s) in ex.stmts_executed for s in ast.walk(md.func(f)) if isinstance(s, ast.stmt)):
-            ctx.record_function(md, f, md.func(f), ex.stmts_executed, how='inlined into ' + fname)
+            ctx.record_function(md, f, md.func(f), EXECUTED, how='inlined into ' + fname)
     val, raises, total = merged_return(outs, base)
     return val, raises, total, list(pre) + ex.facts
 
